@@ -1,6 +1,7 @@
 package rules
 
 import (
+	"fmt"
 	"sort"
 
 	"golang.org/x/tools/go/ssa"
@@ -63,5 +64,28 @@ func c11combwrite(c *core.Ctx, r *core.Reporter) {
 	sort.Slice(sites, func(i, j int) bool { return sites[i].key < sites[j].key })
 	for _, s := range sites {
 		r.Decide(s.ok, rule, s.key, s.pos, "assigns a daemon field of an existing Combination; allowed in this package: "+boolStr(s.ok))
+	}
+}
+
+// pkgNoState: the Call of every built-in registered from the given packages stores nothing into its own
+// function object (same decision procedure as C08.nostate, run under the property whose behaviour it guards:
+// a call site is one object shared by every evaluation - by every flavor that inherits the whopper it stands
+// in, by every effective method that contains the :around method).
+func pkgNoState(c *core.Ctx, r *core.Reporter, rule, text string, floor int, pkgs ...string) {
+	r.Rule(rule, text, floor)
+	want := map[string]bool{}
+	for _, p := range pkgs {
+		want[p] = true
+	}
+	for _, b := range c.Registry() {
+		if b.Call == nil || b.Name == "" || b.Pkg == nil || !want[core.RelPkg(b.Pkg.PkgPath)] {
+			continue
+		}
+		fn := c.SSAFunc(b.Call)
+		if fn == nil || len(fn.Params) == 0 {
+			continue
+		}
+		bad, _ := selfStores(fn)
+		r.Decide(len(bad) == 0, rule, b.Key(), c.Pos(fn.Pos()), fmt.Sprintf("fields of the function object written during Call: %v", bad))
 	}
 }
